@@ -16,6 +16,7 @@ import Np.Model.RoutingTables
 import Np.Model.Maps
 import Np.Model.Div
 import Np.Model.Text
+import Np.Model.TextFile
 import Np.Model.Print
 import Np.Model.PrintText
 import Np.Model.DivArr
@@ -414,6 +415,24 @@ def runCase (j : Json) : E Json := do
       ("roundtrip", toJson (back == some h)),
       ("parsed", match back with
         | some b => Json.mkObj [("names", toJson b.names), ("keys", toJson b.keys), ("shape", toJson b.shape)]
+        | none => Json.null)])
+  | "textfile" =>
+    -- the whole text file of the proved model (Np/Model/TextFile.lean) with the decimal codec: the lines `save` writes,
+    -- its own round trip, and what `load` makes of the lines the implementation wrote
+    let names ← jNatRows (← j.getObjVal? "names")
+    let keys ← jNatRows (← j.getObjVal? "keys")
+    let shape ← jNats (← j.getObjVal? "shape")
+    let cols ← jNatRows (← j.getObjVal? "cols")
+    let delim ← jNat (← j.getObjVal? "delim")
+    let given ← jNatRows (← j.getObjVal? "lines")
+    let h : Text.Header := ⟨names, keys, shape⟩
+    let lines := TextFile.save Text.digits delim h cols
+    let back := TextFile.load Text.ofDigits delim lines
+    let loaded := TextFile.load Text.ofDigits delim given
+    pure (Json.mkObj [("status", "ok"), ("kind", "textfile"), ("lines", toJson lines),
+      ("roundtrip", toJson (back == some (h, cols))),
+      ("loaded", match loaded with
+        | some (b, c) => Json.mkObj [("names", toJson b.names), ("keys", toJson b.keys), ("shape", toJson b.shape), ("cols", toJson c)]
         | none => Json.null)])
   | "print" =>
     -- tokens of every element of the array, and their rendering with the coefficient texts supplied by the harness
